@@ -76,9 +76,11 @@ func genJobs(ctx *core.Ctx) []genJob {
 			genJob{mode: "map", sp: "s1", fam: f, parts: single, b: 4, maxTop: 4, maxD: 1, notdef: true, shards: 1},
 			genJob{mode: "map", sp: "mix", fam: f, parts: single, b: 4, maxTop: 4, maxD: 1, wide: true, notdef: true, shards: 3 * c},
 			genJob{mode: "map", sp: "s2", fam: f, parts: single, b: 4, maxTop: 4, maxD: 1, notdef: true, shards: 3 * c},
-			genJob{mode: "map", sp: "mixw", fam: f, parts: single, b: 4, maxTop: 3, maxD: 1, notdef: true, shards: 2},
 			genJob{mode: "map", sp: "s1", fam: f, parts: chains, b: 4, maxTotal: 3, maxD: 3, notdef: true, shards: 1 + 7*(c-1)},
 		)
+		if f != "tuPrefix" { // the wide mixed space only for the four older families (time)
+			jobs = append(jobs, genJob{mode: "map", sp: "mixw", fam: f, parts: single, b: 4, maxTop: 3, maxD: 1, notdef: true, shards: 2})
+		}
 	}
 	jobs = append(jobs,
 		genJob{mode: "rect", sp: "s2w", fam: "cid", parts: "{}", b: 3, shards: 2},
